@@ -13,8 +13,14 @@ THEOREMS = ["C07_mirror_x_partial", "C07_mirror_y_partial", "C07_transpose_parti
 THEOREMS_RC = ["C07_mirror_recentred_geometry",
                "C07_mirror_x_recentred", "C07_mirror_x_recentred_defect", "C07_mirror_x_recentred_odd", "C07_mirror_x_recentred_even",
                "C07_mirror_y_recentred", "C07_mirror_y_recentred_defect", "C07_mirror_y_recentred_odd", "C07_mirror_y_recentred_even"]
+# non-vacuity witnesses over the complex instance (stdlib real axioms)
+EXAMPLES_RC = ["C07_mirror_recentred_hypotheses_satisfiable", "C07_mirror_recentred_origin_excluded"]
+# Properties/C07MirrorSingle.v: the same mirror statements for single storage, as bounds (Proofs/C07MirrorSingle.v)
+THEOREMS_SINGLE = ["C07_mirror_single_bound", "C07_mirror_single_bound_odd", "C07_mirror_single_bound_default",
+                   "C07_mirror_y_single_bound", "C07_mirror_y_single_bound_odd", "C07_mirror_y_single_bound_default"]
 ASSUMPTIONS = [
-    "array-level mirror: proved for the fields synthesised without the unpaired (Nyquist) column/row of the retained frequency set, as an exact defect identity for the returned arrays, and for the returned arrays themselves when the clamped mode count is odd; dispersion mode under double storage and the default measurement point (no re-centring shift); footprint mode at both precisions",
+    "array-level mirror: proved for the fields synthesised without the unpaired (Nyquist) column/row of the retained frequency set, as an exact defect identity for the returned arrays, and for the returned arrays themselves when the clamped mode count is odd; footprint mode at both precisions; dispersion mode under double storage, at the default measurement point (Properties/C07.v) and with the re-centring shift (Properties/C07Recentre.v: reflected measurement point xm' = xmx - xm / ym' = ymx - ym, any real point, any halo; hypothesis: the request and the reflected request both satisfy the code's guard xm^2 + ym^2 > 0)",
+    "dispersion mode with single storage: not an equality (rounding does not commute with the unit-modulus factor of the mirrored source spectrum) but a bound under the storage-rounding model |rnd x - x| <= eps |x| (Properties/C07MirrorSingle.v): mirror defect = Nyquist defect of the double-storage runs up to eps (Smodes m + Smodes a); 2 eps Smodes a for an odd mode count; rounding of the arithmetic itself is not modelled",
     "length scaling of the top condition uses sqrt(r/s^2) = sqrt(r)/s (principal root, real s > 0) as a hypothesis",
 ]
 
@@ -27,7 +33,9 @@ def gen(ctx):
 
 def check(ctx):
     core.check_properties_file(ctx, "Properties/C07.v", THEOREMS, {"C07_sqrt_scale_in_C": core.AX_REALS})
-    core.check_properties_file(ctx, "Properties/C07Recentre.v", THEOREMS_RC, core.AX_NONE)
+    core.check_properties_file(ctx, "Properties/C07Recentre.v", THEOREMS_RC + EXAMPLES_RC,
+                               dict({n: core.AX_NONE for n in THEOREMS_RC}, **{n: core.AX_REALS for n in EXAMPLES_RC}))
+    core.check_properties_file(ctx, "Properties/C07MirrorSingle.v", THEOREMS_SINGLE, core.AX_REALS, coqchk=False)
     solverslices.run(ctx)
     cases = gen(ctx)
     recs = sc.correspond(ctx, cases, "c07_")
